@@ -254,7 +254,7 @@ func c06Broken(c *core.Ctx, idx int) {
 func init() {
 	core.Register(&core.Check{
 		ID:   "C06",
-		Rule: "cases = known-finding witnesses ++ alternately (a) a generated valid program with 6 (quick) / 20 (thorough) independent guaranteed-breaking edits {insert unmatched closer/opener, delete one bracket, truncate after an operator, insert the operator pair '* /'} in PRNG layouts: >= 1 error required, and (b) a hostile G3 input; for every parse: shape of every delivered error, callback-vs-nil tree equality, and for silent parses non-nil tree + tiling + print-back; non-trivial = program whose every broken variant was reported / hostile input that delivered an error; distinct by expected structure / input bytes",
+		Rule: "cases = known-finding witnesses ++ alternately (a) a generated valid program with 6 (quick) / 20 (thorough) independent guaranteed-breaking edits {insert unmatched closer/opener, delete one bracket, truncate after an operator, insert the operator pair '* /', append a stray quote} in PRNG layouts: >= 1 error required, and (b) a hostile G3 input; for every parse: shape of every delivered error, callback-vs-nil tree equality, (for a third of the inputs with errors) a nested parse run from inside the callback, and for silent parses non-nil tree + tiling + print-back; non-trivial = program whose every broken variant was reported / hostile input that delivered an error; distinct by expected structure / input bytes",
 		Assumptions: []string{
 			"'invalid' is only asserted for edits that are invalid by a counting argument (brackets balance in every valid program; no valid program ends in an operator; no grammar allows '* /')",
 			"an error message of the form unexpected 'X' names a single-character token whose text must be selected by the span; the close tag is delivered as ';'",
